@@ -56,6 +56,7 @@ fn gen(prop: &str, tier: &str, seed: u64) -> Vec<String> {
             interval_ops::c14_ext(&mut out, &cf);
             interval_ops::c14_ext(&mut out, &cu);
             interval_ops::c14_pairs(&mut out);
+            interval_ops::c14_used_ranges(&mut out);
             interval_ops::c14_hash(&mut out, &ci);
             interval_ops::c14_hash(&mut out, &cs);
             interval_ops::c14_hash(&mut out, &cu);
@@ -70,6 +71,7 @@ fn gen(prop: &str, tier: &str, seed: u64) -> Vec<String> {
             let rel: Vec<f64> = vec![-2.0, -0.5, 0.0, 0.25, 1.0, 1.5, 4.0, 16.0];
             interval_ops::c13_rel(&mut out, &rel);
             interval_ops::c13_unsigned(&mut out, &[0u8, 1, 2, 5, 9, 100, 200, 255], &[0u8, 1, 3, 100, 255]);
+            interval_ops::c13_signed(&mut out, &[-128i8, -127, -100, -60, -1, 0, 1, 27, 60, 100, 127], &[-128i8, -2, -1, 0, 1, 2, 27, 127]);
         }
         "C19" => {
             let ch: Vec<f64> = vec![-1.0, 0.0, 1.0, 1.0 + f64::EPSILON, 1.0 + 1e-9, 1.5, 1e10, f64::INFINITY];
